@@ -763,6 +763,7 @@ func TestRun(t *testing.T) {
 		rec.Count("phase_ms_collision_"+kind, time.Since(tc).Milliseconds())
 	}
 	observeDo(rec, vr.Scale(24, 240))
+	responseOfAnAbandonedRequest(rec, vr.Scale(40, 800))
 	rec.Assume("responses forged for tokens that were never outstanding are not part of the statement")
 	rec.Assume("real-thread schedules are sampled: callers start from a barrier, the peer permutes and delays answers by a seeded PRNG")
 }
